@@ -27,22 +27,16 @@ Proof.
   intros r Hr. destruct (F r Hr) as [_ Hs]. destruct (sanity_ok _ _ Hs) as (? & ? & b & _ & _ & Hb). eauto.
 Qed.
 
-(* a data record within what C02 speaks about, when the element objects may have changed since
-   the add: a data record of the template's widths, its CURRENT values well-typed, and not an
-   empty record (d.len <> 0: a record added with no octets is never encoded) *)
-Definition data_rec_ok_m (ws : list N) (r : rec) : Prop := data_rec_ok ws r /\ rec_len r <> 0.
-
 (* the repaired sanity check lets a data record pass only if its current values fill exactly the
    length it was added with: the transmitted set is then one whose records "still have the
    length of their values" (Inv), whatever happened to the element objects in between *)
 Lemma sent_data_good st s t bytes :
   r_wire (send_set cur st s t) = Some bytes -> s_type s = SData ->
-  (forall r, In r (s_recs s) -> rec_len r <> 0) ->
   forall r, In r (s_recs s) -> good_rec r.
 Proof.
-  intros Hw Ty NZ r Hr. destruct (wire_data_bufs st s t bytes Hw Ty r Hr) as [b Eb].
-  specialize (NZ r Hr). destruct r as [tid fc els buf m|tid fc els len]; [exact I|].
-  cbn [good_rec rec_buffer_e rec_len] in *. eapply get_buffer_n_noerr; eassumption.
+  intros Hw Ty r Hr. destruct (wire_data_bufs st s t bytes Hw Ty r Hr) as [b Eb].
+  destruct r as [tid fc els buf m|tid fc els len]; [exact I|].
+  rewrite rec_buffer_e_data in Eb. cbn [good_rec]. eapply get_buffer_n_noerr; eassumption.
 Qed.
 
 Lemma InvM_good_Inv s : InvM s -> (forall r, In r (s_recs s) -> good_rec r) -> Inv s.
@@ -54,18 +48,15 @@ Qed.
 Theorem wellformed_data_set_m widths st s t bytes ws :
   InvM s -> st_wf st -> r_wire (send_set cur st s t) = Some bytes ->
   s_type s = SData -> 256 <= hdr_id s -> widths (hdr_id s) = Some ws -> Exists (fun w => w <> 0) ws ->
-  Forall (data_rec_ok_m ws) (s_recs s) ->
+  Forall (data_rec_ok ws) (s_recs s) ->
   exists d, expected_data s = Some d /\
   rfc_parse widths bytes =
     Some (mkWM 10 (blen bytes) (t mod 2 ^ 32) (seq_next (x_seq st) s mod 2 ^ 32) (x_obs st mod 2 ^ 32)
                (hdr_id s) (blen bytes - 16) (WData d)).
 Proof.
   intros HI W Hw Ty Hid Hws X F.
-  assert (NZ : forall r, In r (s_recs s) -> rec_len r <> 0).
-  { intros r Hr. rewrite Forall_forall in F. now destruct (F r Hr). }
-  pose proof (InvM_good_Inv s HI (sent_data_good st s t bytes Hw Ty NZ)) as HInv.
-  apply (wellformed_data_set_tpl_s widths st s t bytes ws HInv W Hw Hid Hws X).
-  apply Forall_forall. intros r Hr. rewrite Forall_forall in F. now destruct (F r Hr).
+  pose proof (InvM_good_Inv s HI (sent_data_good st s t bytes Hw Ty)) as HInv.
+  exact (wellformed_data_set_tpl_s widths st s t bytes ws HInv W Hw Hid Hws X F).
 Qed.
 
 (* the headline for any set state: frame + template records + data records *)
@@ -73,7 +64,7 @@ Definition c02_scope_m (widths : N -> option (list N)) (s : setb) : Prop :=
   (hdr_id s = 2 /\ Forall tpl_rec_ok (s_recs s)) \/
   (s_type s = SData /\ 256 <= hdr_id s /\
    exists ws, widths (hdr_id s) = Some ws /\ Exists (fun w => w <> 0) ws /\
-              Forall (data_rec_ok_m ws) (s_recs s)).
+              Forall (data_rec_ok ws) (s_recs s)).
 
 Theorem wellformed_message_m widths st s t bytes :
   InvM s -> (forall r, In r (s_recs s) -> tshape r) ->
